@@ -1737,6 +1737,9 @@ bool QXmppMessage::parseExtension(const QDomElement &element, QXmpp::SceMode sce
         if (checkElement(element, u"html", ns_xhtml_im)) {
             QDomElement bodyElement = element.firstChildElement(u"body"_s);
             if (!bodyElement.isNull() && bodyElement.namespaceURI() == ns_xhtml) {
+                // a second <html/> element replaces the first one: writing into the non-empty string
+                // mixed both bodies into ill-formed markup
+                d->xhtml.clear();
                 QTextStream stream(&d->xhtml, QIODevice::WriteOnly);
                 bodyElement.save(stream, 0);
 
